@@ -482,6 +482,40 @@ def run_profile(profile, seed, tier, opts=None, flavor="dev-hooks", modes=7, sca
             pass
     summary["compile_fail"] = compile_fail[:40]
     summary["pgen_fail"] = pgen_fail[:40]
+    if opts.get("inline_variants"):
+        # C13 (i): `>Rule` and the body written in place must declare byte-identical public types
+        tfind = []
+        tcmp = 0
+        by_base = {}
+        for u in units:
+            by_base.setdefault(u["base"], {})[u["variant"]] = u["uid"]
+        for base, vs in by_base.items():
+            if "inc" in vs and "inl" in vs:
+                secs = {}
+                for v in ("inc", "inl"):
+                    pth = os.path.join(rundir, "g%d.rs" % vs[v])
+                    if os.path.exists(pth):
+                        with open(pth, encoding="utf-8") as f:
+                            code = f.read()
+                        k = code.find("mod peginator_generated")
+                        secs[v] = code[:k] if k >= 0 else code
+                if len(secs) == 2:
+                    tcmp += 1
+                    if secs["inc"] != secs["inl"]:
+                        i = next((k for k in range(min(len(secs["inc"]), len(secs["inl"]))) if secs["inc"][k] != secs["inl"][k]), 0)
+                        with open(os.path.join(rundir, "g%d.ebnf" % vs["inc"]), encoding="utf-8") as f:
+                            gt = f.read()
+                        tfind.append({"kind": "types_differ", "base": base, "grammar_text": gt,
+                                      "msg": "public types of the grammar with >Rule differ from those of the grammar with the body in place",
+                                      "expected": secs["inl"][max(0, i - 80):i + 120], "observed": secs["inc"][max(0, i - 80):i + 120]})
+                elif len(secs) == 1:
+                    with open(os.path.join(rundir, "g%d.ebnf" % vs["inc"]), encoding="utf-8") as f:
+                        gt = f.read()
+                    tfind.append({"kind": "types_differ", "base": base, "grammar_text": gt,
+                                  "msg": "only one of (grammar with >Rule, grammar with the body in place) was accepted by the compiler: %s" % sorted(secs),
+                                  "expected": "both or neither", "observed": sorted(secs)})
+        summary["type_section_findings"] = tfind[:20]
+        summary["type_sections_compared"] = tcmp
     summary["timing"] = {"A": tA - t0, "B": tB - tA, "run": tR - tB, "C": tC - tR, "total": tC - t0}
     summary["key"] = key
     summary["rundir"] = rundir
